@@ -1835,6 +1835,9 @@ class StateEngine(object):
             the event, state and id to be wrapped in its closure, to be used when
             the service integrated to the Task *actually* returns its result.
             """
+            # The deferred call has happened, so it can no longer be cancelled.
+            self.task_dispatcher.remove_canceller(id)
+
             def on_response(result):
                 """
                 The use of the "errorType" field to report an error invoking a
@@ -2088,7 +2091,25 @@ class StateEngine(object):
             asl_state_Task_delegate when any retry timeout has expired.
             """
             retry_timeout = context["State"].get("RetryTimeout", 0)
-            self.event_dispatcher.set_timeout(asl_state_Task_delegate, retry_timeout)
+
+            """
+            Until the delegate runs this Task has no pending request that could
+            be cancelled, so register the deferred call itself as cancellable.
+            Otherwise, if the enclosing Map or Parallel state fails in the
+            meantime, the delegate would still run and invoke (or fail) the
+            Task of a branch that has already been terminated.
+            """
+            def on_cancel(error=None):
+                self.task_dispatcher.remove_canceller(id)
+                handle_error(state, error.get("errorType"), error.get("errorMessage"))
+                self.event_dispatcher.acknowledge(id)
+
+            timeout_id = self.event_dispatcher.set_timeout(
+                asl_state_Task_delegate, retry_timeout
+            )
+            self.task_dispatcher.set_timeout_canceller(
+                id, timeout_id, on_cancel, context["Execution"]["Id"]
+            )
 
         def asl_state_Choice():
             """
